@@ -87,6 +87,10 @@ func (l *vfLoaded) Close() {
 	os.RemoveAll(l.dir)
 }
 
+// vfLoadCarOverHTTP: the next vfLoadEpochs serves the CAR files from a loopback HTTP server, so that the epochs
+// read them through the remote ReaderAt path instead of the local-file path (set and reset by the caller).
+var vfLoadCarOverHTTP bool
+
 // vfLoadEpochs builds and loads the given epoch specs into a MultiEpoch.
 func vfLoadEpochs(specs []*cargen.EpochSpec, gsfa bool, opts *Options) (*vfLoaded, error) {
 	l := &vfLoaded{dir: vfh.TmpDir("epochs")}
@@ -108,7 +112,7 @@ func vfLoadEpochs(specs []*cargen.EpochSpec, gsfa bool, opts *Options) (*vfLoade
 		if len(ep.Blocks) == 0 || len(ep.Txs) == 0 {
 			continue
 		}
-		env, err := vfBuildEpoch(filepath.Join(l.dir, fmt.Sprintf("e%d", i)), ep, vfBuildOpts{Gsfa: gsfa})
+		env, err := vfBuildEpoch(filepath.Join(l.dir, fmt.Sprintf("e%d", i)), ep, vfBuildOpts{Gsfa: gsfa, HTTPCar: vfLoadCarOverHTTP})
 		if err != nil {
 			return l, fmt.Errorf("building epoch %d: %v", s.Epoch, err)
 		}
